@@ -222,6 +222,7 @@ struct nng_aio {
 	nni_time     a_expire;     // Absolute timeout
 	nni_duration a_timeout;    // Relative timeout
 	nng_err      a_result;     // Result code (nng_errno)
+	nng_err      a_abort_result; // Result to report if aborted before start
 	bool         a_stop;       // Shutting down (no new operations)
 	bool         a_sleep;      // Sleeping with no action
 	bool         a_expire_ok;  // Expire from sleep is ok
